@@ -91,7 +91,7 @@ def run_small(scn, tid, rng, root, BarcodeParser):
         for i, bc in enumerate(f['bcs']):
             s = tr(bc)
             if f['fmt'] == 'bc':
-                lines.append(s)
+                lines.append(s + (' ' if tid % 4 == 1 else ''))     # one column followed by a blank: the split(' ') arm of the parser
                 wl.append([enc(s), str(f['idx'][i])])
             else:
                 it = idx_text(f['idx'][i], tid)
@@ -133,8 +133,15 @@ def run_small(scn, tid, rng, root, BarcodeParser):
             lz = ((alias,), '*', (alias, 'nofile'))[tid % 3]
         parser = BarcodeParser(d, hammingDistanceExpansion=k, lazyLoad=lz)
     touch = scn.get('touch', 'lookup')
+    if tid % 6 == 1:
+        # read-only accessors used for reporting, on a possibly still pending alias, before anything else: the lookups that follow
+        # (and the lazy load they trigger) must not be disturbed by the empty table entries these calls create
+        parser.getTargetCount(alias)
+        parser.getBarcodeMapping()
     if lazy and touch == 'getitem':
         parser[alias]          # __getitem__: the other public access that loads a pending alias (before any lookup)
+    elif not lazy and via == 'file' and tid % 6 == 2:
+        parser[alias]          # ... and on an alias that is already loaded
     qs = all_strings(L)
     rng.shuffle(qs)
     ans = [observe(parser, q, alias) for q in qs]
